@@ -195,6 +195,16 @@ func opSend(w *World, s *Step) (string, string) {
 			return "keyerr", "keyerr"
 		}
 	}
+	if s.N > 1 && c.key != nil {
+		// a busy SA: N-1 earlier messages protected on the same key object (not inspected one by one)
+		for i := 1; i < s.N; i++ {
+			if m2, err := s.Msg.build(); err == nil {
+				protect(m2, c.key, s.From, &RandScript{Seed: uint64(i)})
+			}
+		}
+		w.stats.add("soak_protect_calls", int64(s.N-1))
+		w.stats.inc("probe_65536_operations_on_one_key_object")
+	}
 	c.out, c.res = protect(msg, c.key, s.From, s.Rand)
 	if c.res.RandSt.fired {
 		w.stats.inc("fault_rand_failure_fired")
@@ -312,6 +322,14 @@ func opDeliver(w *World, s *Step) (string, string) {
 			return "keyerr", "keyerr"
 		}
 		c.sa.Log.Store(&spyLog{})
+	}
+	if s.N > 1 && c.key != nil {
+		// a flood: the same datagram presented N-1 times before (not inspected one by one)
+		for i := 1; i < s.N; i++ {
+			unprotect(rxBuffer(c.wire, 0), c.key, c.toRole, false)
+		}
+		w.stats.add("soak_unprotect_calls", int64(s.N-1))
+		w.stats.inc("probe_65536_operations_on_one_key_object")
 	}
 	var before []byte
 	if w.prop == "C18" {
